@@ -90,6 +90,29 @@ def binop(case):
     return r
 
 
+def far_case(case):
+    """{'op', 'a', 'b'}: operands on sparse, large qubit indices (8, 9, 63, 64, 100, 1000 ...): judged by coefficient maps (Pauli strings are linearly independent,
+    so equal maps <=> equal matrices) computed with a single-qubit table derived from the 2x2 matrices - no dense matrix of 2^1000 entries is needed"""
+    def cm(desc):
+        if "n" in desc:
+            return {(): complex(coef(desc["n"]))}
+        terms = [desc["t"]] if "t" in desc else desc["s"]
+        return rp.coeff_map([(complex(coef(c)), ops) for c, ops in terms])
+    a, b = mk_op(case["a"]), mk_op(case["b"])
+    A, B = cm(case["a"]), cm(case["b"])
+    op = case["op"]
+    got, exp = (a * b, rp.map_mul(A, B)) if op == "mul" else (a + b, rp.map_add(A, B)) if op == "add" else (a - b, rp.map_add(A, B, -1))
+    G = rp.coeff_map([(c, {str(q): p_ for q, p_ in ops.items()}) for c, ops in op_terms(got)])
+    keys = set(G) | set(exp)
+    ok = all(abs(G.get(k_, 0) - exp.get(k_, 0)) <= ATOL for k_ in keys)
+    A2 = rp.coeff_map([(c, {str(q): p_ for q, p_ in ops.items()}) for c, ops in op_terms(a)]) if not isinstance(a, (int, float, complex)) else A
+    ok2 = all(abs(A2.get(k_, 0) - A.get(k_, 0)) <= ATOL for k_ in set(A) | set(A2))
+    r = {"ok": bool(ok and ok2), "nt": True, "out": op}
+    if not r["ok"]:
+        r.update(msg="%s of operands on far-apart qubits does not denote the matrix %s" % (op, op) if ok2 else "operand modified by " + op, expected=str(exp)[:500], observed=repr(got)[:300], sig="far:" + op)
+    return r
+
+
 def powop(case):
     a = mk_op(case["a"])
     k = case["k"]
@@ -214,7 +237,7 @@ def edge_case(case):
     return {"ok": True, "nt": True, "ops": k, "out": "edges"}
 
 
-FUNCS = {"equality_edges": edge_case, "construction": construction_case, "term_pairs": binop, "term_coeffs": binop, "scalars": binop, "near_operands": binop, "scale": binop, "powers": powop, "sum_pairs": binop, "mixed": binop,
+FUNCS = {"far_qubits": far_case, "equality_edges": edge_case, "construction": construction_case, "term_pairs": binop, "term_coeffs": binop, "scalars": binop, "near_operands": binop, "scale": binop, "powers": powop, "sum_pairs": binop, "mixed": binop,
          "simplify": simplify_case, "equality": eq_case}
 
 PAULIS = "IXYZ"
@@ -323,6 +346,16 @@ def run(run):
         for dv in (5e-9, [0, 1e-9], -2.5e-10):
             cases.append({"op": "div", "a": a, "b": {"n": dv}})
     secs.append(Section("scale", cases, binop, desc="operands with coefficients of 1e-12..5e-9 times / divided by factors of 1e8..1e9: the O(1) product is the matrix product"))
+    # --- far-apart / large qubit indices, and sums of many terms (size thresholds: 8 and 64 bits of index, multi-digit indices, > 64 terms)
+    fq = [0, 7, 8, 9, 63, 64, 100, 1000]
+    fstr = [{str(q): p_} for q in (8, 64, 1000) for p_ in "XYZ"] + [{str(a_): p_, str(b_): q_} for a_, b_ in ((0, 8), (8, 9), (7, 64), (63, 64), (9, 1000), (100, 8)) for p_, q_ in (("X", "Y"), ("Z", "X"), ("Y", "Y"))]
+    fstr += [{"1": "X", "8": "Z", "64": "Y"}, {"64": "X", "8": "X", "1": "Y"}, {str(q): "Z" for q in fq}, {str(q): "XYZ"[i % 3] for i, q in enumerate(fq)}]
+    cases = [{"op": op, "a": T(1.0, a), "b": T([0.5, -1], b)} for a in fstr for b in fstr for op in ("mul", "add", "sub")]
+    many = [[(-1) ** i * (1 + i / 8), {str(fq[i % 8]): "XYZ"[i % 3], str(10 + i): "Z"}] for i in range(70)]
+    many2 = [[0.5 + i, {str(10 + i): "X"}] for i in range(0, 70, 7)]
+    cases += [{"op": op, "a": {"s": many}, "b": b} for op in ("mul", "add", "sub") for b in ({"s": many2}, T(2.0, {"10": "Y"}), {"s": many[::-1]}, {"n": 3})]
+    cases += [{"op": op, "a": b, "b": {"s": many}} for op in ("mul", "add", "sub") for b in ({"s": many2}, T(2.0, {"10": "Y"}), {"n": [0, 2]})]
+    secs.append(Section("far_qubits", cases, far_case, desc="all ordered pairs of %d strings on qubits {0,7,8,9,63,64,100,1000} and sums of 70 terms: * + - judged by coefficient maps" % len(fstr)))
     # --- simplify: ordered lists (order matters for like-term merging)
     pool = term_pool()
     L = 3 if thorough else 2
